@@ -16,3 +16,10 @@ impl<'a> Clone for PathCow<'a> {
     #[verifier::external_body]
     fn clone(&self) -> (r: Self) ensures r == *self { unimplemented!() }
 }
+
+// ASSUMED (prelude row "Option::replace"): returns the old value and leaves Some(new).  R4: `x.replace(v)` on an
+// Option is rewritten to `option_replace(&mut x, v)`.
+#[verifier::external_body]
+pub fn option_replace<T>(o: &mut Option<T>, v: T) -> (r: Option<T>)
+    ensures r == *old(o), *final(o) == Some(v),
+{ o.replace(v) }
